@@ -466,9 +466,9 @@ def run(ctx):
                 nle += 1
                 ctx.check("endianness", "%s/%s@%s" % (fn.path.split("::")[-1], callee_name(p), values.fmt(W.ev(fn.path).call_args(bb)[-1])[:40]), "_le_" in callee_name(p),
                           "%s (little-endian)" % callee_name(p), "%s in %s is not little-endian" % (callee_name(p), fn.path), fn.loc(bb))
-            if p.startswith("byteorder::") and (callee_name(p).startswith("read_u") or callee_name(p).startswith("write_u")):
+            if "byteorder::" in p and (callee_name(p).startswith("read_u") or callee_name(p).startswith("write_u")):
                 nle += 1
-                le = any("LittleEndian" in s for s in t["fn"].get("substs", []))
+                le = any("LittleEndian" in s for s in t["fn"].get("substs", [])) or "LittleEndian" in (t["fn"].get("self_ty") or "") or "LittleEndian as" in p
                 ctx.check("endianness", "%s/%s@%s" % (fn.path.split("::")[-1], callee_name(p), values.fmt(W.ev(fn.path).call_args(bb)[-1])[:40]), le,
                           "%s::<LittleEndian>" % callee_name(p), "%s in %s is not little-endian (%s)" % (callee_name(p), fn.path, t["fn"].get("substs")), fn.loc(bb))
     ctx.floor("endianness", nle, 9, "byteorder read/write sites in the codec, request parser and response builders")
@@ -555,5 +555,5 @@ def run(ctx):
             if a[0] == ("param", nrr.path, 1) and a[1][0] == "agg":
                 slices.append((str(a[1][1]).split("::")[-1], tuple(x[1] if x[0] == "int" else None for x in a[1][2])))
     want = [("Range", (len(magic), len(magic) + 4)), ("RangeFrom", (len(magic) + 4,))]
-    ctx.check("framing", "request/length-and-body-offsets", sorted(slices) == sorted(want), "length from buf[8..12], message from buf[12..]",
+    ctx.check("framing", "request/length-and-body-offsets", sorted(set(slices)) == sorted(want), "length from buf[8..12], message from buf[12..]",
               "nonce_from_rfc_request slices %s, expected %s" % (slices, want), ctx.loc(nrr))
